@@ -25,6 +25,22 @@ struct CostEngine : EngineBase {
   Cmp cmp{kHarnessOrigin};
   uint64_t max_lookup = 0, max_hint = 0, max_small = 0, n_measured = 0;
 
+  // construction from (key, payload): class types by their constructor, raw arithmetic keys by value
+  template <class S, class E_ = E>
+  static typename std::enable_if<!std::is_arithmetic<E_>::value, std::pair<typename S::iterator, bool> >::type emp(S &s, int k, unsigned p) { return s.emplace(k, p); }
+  template <class S, class E_ = E>
+  static typename std::enable_if<std::is_arithmetic<E_>::value, std::pair<typename S::iterator, bool> >::type emp(S &s, int k, unsigned) { return s.emplace(static_cast<E>(k)); }
+  template <class S, class It, class E_ = E>
+  static typename std::enable_if<!std::is_arithmetic<E_>::value, typename S::iterator>::type emph(S &s, It h, int k, unsigned p) { return s.emplace_hint(h, k, p); }
+  template <class S, class It, class E_ = E>
+  static typename std::enable_if<std::is_arithmetic<E_>::value, typename S::iterator>::type emph(S &s, It h, int k, unsigned) { return s.emplace_hint(h, static_cast<E>(k)); }
+  static E *newE(int k, unsigned p) { return new E(Mk<E>::make(Val(k, p))); }
+  // key of rank i among n: evenly spaced, or (skew) the same cluster with one far outlier at the top - a search that guesses the position from the
+  // key values degenerates on it
+  bool skew = false;
+  int keyat(size_t i, size_t n) const { return skew && n >= 2 && i == n - 1 ? (1 << 30) : static_cast<int>(4 * (i + 1)); }
+  int gapkey(size_t r, size_t n) const { return skew && n >= 2 && r == n ? (1 << 30) + 2 : static_cast<int>(4 * r + 2); }
+
   template <class F>
   uint64_t cost(F &&f) {
     uint64_t c0 = g_cmp_calls;
@@ -39,6 +55,14 @@ struct CostEngine : EngineBase {
   // key of rank r (present keys are even when ordered ascending); the comparator may order descending or by classes of two
   void run_size(size_t n, long hidx) {
     begin_history(0, hidx, 0xC19);
+    skew = false;
+    sweep(n);
+#if VF_MAX_N >= 100000
+    if (n >= 2 && !g_cut) { skew = true; sweep(n); skew = false; }  // (keys of at least 32 bits only)
+#endif
+    if (!g_cut) end_history_ok();
+  }
+  void sweep(size_t n) {
     Set *s;
     { MonScope m; s = static_cast<Set *>(malloc(sizeof(Set))); }
     window([&] { new (s) Set(cmp); });
@@ -46,24 +70,24 @@ struct CostEngine : EngineBase {
     bool asc;
     { MonScope m; asc = cmp(Val(4, 0), Val(8, 0)); }
     for (size_t i = 0; i < n; ++i) {
-      int k = static_cast<int>(4 * (i + 1));
-      if (asc) window([&] { s->emplace_hint(s->end(), k, static_cast<unsigned>(i)); });
-      else window([&] { s->emplace_hint(s->begin(), k, static_cast<unsigned>(i)); });
+      int k = keyat(i, n);
+      if (asc) window([&] { emph(*s, s->end(), k, static_cast<unsigned>(i)); });
+      else window([&] { emph(*s, s->begin(), k, static_cast<unsigned>(i)); });
     }
     if (static_cast<size_t>(s->size()) != n) harness_fail("cost engine: set construction failed");
     const uint64_t bound = 2 * ceil_log2(n + 1) + 4;
     std::vector<size_t> ranks;
     if (n <= 64) for (size_t r = 0; r <= n; ++r) ranks.push_back(r);
     else for (int q = 0; q < 200; ++q) ranks.push_back(q == 0 ? 0 : q == 1 ? n : rng.below(static_cast<uint32_t>(n + 1)));
-    set_op("lookups+insert+hint", n == 0 ? "n=0" : n <= 16 ? "n<=16" : n <= 64 ? "n<=64" : "n>64", "-", fmt("n=%zu bound=%ju", n, static_cast<uintmax_t>(bound)));
+    set_op(skew ? "lookups+insert+hint(skewed keys)" : "lookups+insert+hint", n == 0 ? "n=0" : n <= 16 ? "n<=16" : n <= 64 ? "n<=64" : "n>64", "-", fmt("n=%zu bound=%ju", n, static_cast<uintmax_t>(bound)));
     const Set &cs = *s;
     for (size_t ri = 0; ri < ranks.size() && !g_cut; ++ri) {
       size_t r = ranks[ri];
       for (int present = 0; present < 2; ++present) {
         if (present && r >= n) continue;
-        int key = present ? static_cast<int>(4 * (r + 1)) : static_cast<int>(4 * r + 2);  // absent keys fall in the gap below rank r
+        int key = present ? keyat(r, n) : gapkey(r, n);  // absent keys fall in the gap below rank r
         E *e;
-        { MonScope m; e = new E(key, 777); }
+        { MonScope m; e = newE(key, 777); }
         uint64_t c;
         c = cost([&] { (void)cs.find(*e); }); judge("find", c, bound, n, key); if (c > max_lookup) max_lookup = c;
         c = cost([&] { (void)cs.contains(*e); }); judge("contains", c, bound, n, key);
@@ -77,14 +101,14 @@ struct CostEngine : EngineBase {
             bool ins = false;
             c = cost([&] { ins = s->insert(*e).second; }); judge("insert", c, bound, n, key);
             c = cost([&] { (void)s->erase(*e); }); judge("erase(key)", c, 2 * ceil_log2(n + 2) + 4, n + 1, key);
-            c = cost([&] { (void)s->emplace(key, 778u); }); judge("emplace", c, bound, n, key);
+            c = cost([&] { (void)emp(*s, key, 778u); }); judge("emplace", c, bound, n, key);
             c = cost([&] { (void)s->erase(*e); });
             // correct hint = lower_bound
             size_t lb = 0;
             { MonScope m; lb = static_cast<size_t>(cs.lower_bound(*e) - cs.begin()); }
             c = cost([&] { (void)s->insert(s->begin() + lb, *e); }); judge("insert(correct hint)", c, 6, n, key); if (c > max_hint) max_hint = c;
             c = cost([&] { (void)s->erase(*e); });
-            c = cost([&] { (void)s->emplace_hint(s->begin() + lb, key, 779u); }); judge("emplace_hint(correct hint)", c, 6, n, key); if (c > max_hint) max_hint = c;
+            c = cost([&] { (void)emph(*s, s->begin() + lb, key, 779u); }); judge("emplace_hint(correct hint)", c, 6, n, key); if (c > max_hint) max_hint = c;
             c = cost([&] { (void)s->erase(*e); });
             // extract / re-insert idiom: insert(hint, node) with the correct hint
             {
@@ -113,11 +137,10 @@ struct CostEngine : EngineBase {
         delete e;
       }
     }
-    hetero_costs(cs, n, bound);
+    if (!skew) hetero_costs(cs, n, bound);
     window([&] { s->~Set(); });
     MonScope m;
     free(s);
-    if (!g_cut) end_history_ok();
   }
 
   // heterogeneous keys under a transparent comparator: an int key, and keys equivalent to runs of 2, 16 and 256 consecutive elements
@@ -153,7 +176,7 @@ struct CostEngine : EngineBase {
       SS *s;
       { MonScope m; s = static_cast<SS *>(malloc(sizeof(SS))); }
       window([&] { new (s) SS(cmp); });
-      for (size_t i = 0; i < fill; ++i) { int k = static_cast<int>(4 * (i + 1)); window([&] { s->emplace(k, 0u); }); }
+      for (size_t i = 0; i < fill; ++i) { int k = static_cast<int>(4 * (i + 1)); window([&] { emp(*s, k, 0u); }); }
       set_op("smallset-lookup", fmt("N=%ju", static_cast<uintmax_t>(N)), fmt("fill=%zu", fill), "");
       const SS &cs = *s;
       for (size_t r = 0; r <= fill; ++r)
@@ -161,7 +184,7 @@ struct CostEngine : EngineBase {
           if (present && r >= fill) continue;
           int key = present ? static_cast<int>(4 * (r + 1)) : static_cast<int>(4 * r + 2);
           E *e;
-          { MonScope m; e = new E(key, 1); }
+          { MonScope m; e = newE(key, 1); }
           uint64_t c;
           c = cost([&] { (void)cs.find(*e); }); if (c > max_small) max_small = c; ++n_measured;
           if (c > 2 * N + 2) violation("C19", "cost.smallset_lookup", fmt("find on an inline SmallSet<N=%ju> with %zu elements used %ju comparator calls (bound 2N+2)", static_cast<uintmax_t>(N), fill, static_cast<uintmax_t>(c)));
@@ -190,7 +213,7 @@ struct CostEngine : EngineBase {
     SS *s;
     { MonScope m; s = static_cast<SS *>(malloc(sizeof(SS))); }
     window([&] { new (s) SS(cmp); });
-    for (size_t i = 0; i < n; ++i) { int k = static_cast<int>(4 * (i + 1)); window([&] { s->emplace(k, static_cast<unsigned>(i)); }); }
+    for (size_t i = 0; i < n; ++i) { int k = static_cast<int>(4 * (i + 1)); window([&] { emp(*s, k, static_cast<unsigned>(i)); }); }
     if (static_cast<size_t>(s->size()) != n) harness_fail("cost engine: SmallSet construction failed");
     const uint64_t bound = 2 * ceil_log2(n + 1) + 4, bound1 = 2 * ceil_log2(n + 2) + 4;
     set_op("smallset-over-flatset(large)", fmt("N=%ju", static_cast<uintmax_t>(N)), n <= 16 ? "n<=16" : n <= 64 ? "n<=64" : "n>64", fmt("n=%zu bound=%ju", n, static_cast<uintmax_t>(bound)));
@@ -200,7 +223,7 @@ struct CostEngine : EngineBase {
         if (present && r >= n) continue;
         int key = present ? static_cast<int>(4 * (r + 1)) : static_cast<int>(4 * r + 2);
         E *e;
-        { MonScope m; e = new E(key, 777); }
+        { MonScope m; e = newE(key, 777); }
         auto hint_of = [&]() { MonScope m; auto it = cs.begin(); while (it != cs.end() && cmp(*it, *e)) ++it; return it; };
         uint64_t c;
         c = cost([&] { (void)cs.find(*e); }); judge("SmallSet(large, FlatSet)::find", c, bound, n, key); if (c > max_lookup) max_lookup = c;
@@ -209,12 +232,12 @@ struct CostEngine : EngineBase {
         if (!present) {
           c = cost([&] { (void)s->insert(*e); }); judge("SmallSet(large, FlatSet)::insert", c, bound, n, key);
           c = cost([&] { (void)s->erase(*e); }); judge("SmallSet(large, FlatSet)::erase(key)", c, bound1, n + 1, key);
-          c = cost([&] { (void)s->emplace(key, 778u); }); judge("SmallSet(large, FlatSet)::emplace", c, bound, n, key);
+          c = cost([&] { (void)emp(*s, key, 778u); }); judge("SmallSet(large, FlatSet)::emplace", c, bound, n, key);
           c = cost([&] { (void)s->erase(*e); });
           { auto h = hint_of(); c = cost([&] { (void)s->insert(h, *e); }); }
           judge("SmallSet(large, FlatSet)::insert(correct hint)", c, 6, n, key); if (c > max_hint) max_hint = c;
           c = cost([&] { (void)s->erase(*e); });
-          { auto h = hint_of(); c = cost([&] { (void)s->emplace_hint(h, key, 779u); }); }
+          { auto h = hint_of(); c = cost([&] { (void)emph(*s, h, key, 779u); }); }
           judge("SmallSet(large, FlatSet)::emplace_hint(correct hint)", c, 6, n, key); if (c > max_hint) max_hint = c;
           typename SS::node_type nh;
           c = cost([&] { nh = s->extract(*e); }); judge("SmallSet(large, FlatSet)::extract(key)", c, bound1, n + 1, key);
